@@ -139,9 +139,14 @@ def bytes_corpus(eng, P):
     own = base is None
     if own:
         base = tempfile.mkdtemp(prefix='verif_c15_', dir=os.environ.get('VERIF_TMP') or None)
+    old_tempdir = tempfile.tempdir
     try:
         root = os.path.join(base, 'b')
         os.makedirs(os.path.join(root, 'out'))
+        # a private temp directory: other worker processes create file_builder_* directories in the shared one
+        private_tmp = os.path.join(base, 'private_tmp')
+        os.makedirs(private_tmp)
+        tempfile.tempdir = private_tmp
         cache = os.path.join(root, 'cache')
         target = os.path.join(root, 'out', 'f')
         calls = []
@@ -189,7 +194,7 @@ def bytes_corpus(eng, P):
             return out
 
         pre = snap()
-        tmpbefore = set(os.listdir(tempfile.gettempdir()))
+        tmpbefore = set(os.listdir(private_tmp))
         del calls[:]
         try:
             if api == 'build':
@@ -218,10 +223,11 @@ def bytes_corpus(eng, P):
         eng.check('C15.user-function-called', not calls, sig)
         post = snap()
         eng.check('C15.tree-changed', pre == post, sig, info={'corruption': kind, 'offset': off})
-        left = [x for x in set(os.listdir(tempfile.gettempdir())) - tmpbefore if x.startswith('file_builder_')]
+        left = [x for x in set(os.listdir(private_tmp)) - tmpbefore if x.startswith('file_builder_')]
         eng.check('C15.temp-dir-left', not left, sig)
         eng.sample({'family': 'bytes', 'corruption': kind, 'offset': off, 'cache_bytes': n, 'api': api, 'refused': refused})
     finally:
+        tempfile.tempdir = old_tempdir
         if own:
             shutil.rmtree(base, ignore_errors=True)
 
